@@ -579,13 +579,20 @@ class GroupModel:
                 out.flow_problems.append("the group map does not start empty for every aggregated column")
         # per_group_value must be reducer(gathered values)
         red_ev = None
+
+        def reducer_of(ev):
+            """the function evaluated in line by ev: a local closure, or a module-level function introduced after the reference tree"""
+            if ev.term[1][0] == "lam":
+                return it.closures[ev.term[1][1]]
+            if ev.term[1][0] == "name" and ev.term[1][1] in self.prog.functions:
+                return self.prog.functions[ev.term[1][1]]
+            return None
         for ev in it.events:
-            if ev.kind == "inline" and Lg in ev.loops and ev.value == per_group_value and ev.term[1][0] == "lam" and len(ev.term[2]) == 1:
-                c = it.closures[ev.term[1][1]]
+            if ev.kind == "inline" and Lg in ev.loops and ev.value == per_group_value and len(ev.term[2]) == 1 and reducer_of(ev) is not None:
                 if self._gather_of(ev.term[2][0], col_data, Lg) is None or red_ev is None:
                     red_ev = ev
         if red_ev is not None:
-            out.reducer = it.closures[red_ev.term[1][1]]
+            out.reducer = reducer_of(red_ev)
             out.reducer_term = red_ev.term[1]
             why = self._gather_of(red_ev.term[2][0], col_data, Lg)
             if why:
